@@ -1231,6 +1231,8 @@ pub trait ObservableExt<Item, Err>: Sized {
     // the delay is the time remaining until `at` (zero if it has passed), not
     // the time elapsed since `at`
     let now = Instant::now();
+    #[cfg(feature = "verif_hooks")]
+    let now = crate::verif_hooks::now().unwrap_or(now);
     DelayOp {
       source: self,
       delay: at.saturating_duration_since(now),
@@ -1246,6 +1248,8 @@ pub trait ObservableExt<Item, Err>: Sized {
     scheduler: SD,
   ) -> DelayOpThreads<Self, SD> {
     let now = Instant::now();
+    #[cfg(feature = "verif_hooks")]
+    let now = crate::verif_hooks::now().unwrap_or(now);
     DelayOpThreads {
       source: self,
       delay: at.saturating_duration_since(now),
@@ -1272,6 +1276,8 @@ pub trait ObservableExt<Item, Err>: Sized {
     scheduler: SD,
   ) -> DelaySubscriptionOp<Self, SD> {
     let now = Instant::now();
+    #[cfg(feature = "verif_hooks")]
+    let now = crate::verif_hooks::now().unwrap_or(now);
     DelaySubscriptionOp {
       source: self,
       delay: at.saturating_duration_since(now),
